@@ -573,6 +573,37 @@ fn run_e2e<S: SignedHeaderRequirements>(
     };
     let bodykind = get_str(cfg, "bodykind").to_string();
     let polls = if script.ready_in == u64::MAX || script.pend_in == u64::MAX { 12 } else { 100_000 };
+    if get_str(cfg, "provider") == "fn" {
+        // the crate's own adapter: an async closure wrapped by service_for_signing_key_fn (a tower ServiceFn, which is
+        // always ready and answers without pending); its interactions are recorded in the same vocabulary
+        let ev2 = provider.events.clone();
+        let sc = script.clone();
+        // (bound separately: a closure literal passed directly would be inferred as FnOnce from the adapter's bound)
+        let adapter_fn = move |r: GetSigningKeyRequest| {
+            let mut inner = Provider {
+                script: Script { ready_in: 0, pend_in: 0, ..sc.clone() },
+                ready_left: 0,
+                events: ev2.clone(),
+            };
+            ev2.lock().unwrap().push(json!({"ev": "PollReady", "ret": if sc.ready == "ok" { "ready" } else { "err" }}));
+            let ready_ok = sc.ready == "ok";
+            let sc2 = sc.clone();
+            let fut = if ready_ok { Some(tower::Service::call(&mut inner, r)) } else { None };
+            async move {
+                match fut {
+                    Some(f) => f.await,
+                    None => Err(script_err(&sc2.err_kind, &sc2.ready)),
+                }
+            }
+        };
+        let mut svc = scratchstack_aws_signature::service_for_signing_key_fn(adapter_fn);
+        let out = guarded(|| block_on_n(sigv4_validate_request(req, &region, &service, &mut svc, now, reqs, opts), polls));
+        return match out {
+            Err(p) => end_event(Some(Err(p))),
+            Ok(None) => end_event(None),
+            Ok(Some(r)) => end_event(Some(Ok(r))),
+        };
+    }
     let out = guarded(|| {
         if bodykind == "vec" {
             let (p, b) = req.into_parts();
